@@ -16,8 +16,8 @@ pub static DEF: PropDef = PropDef {
     level: "exploration",
     rule: "each case: one specification (zoo or random forest of masters with leaves at any depth, trailing and intermediate global placeholders with random bounds) and a random sample of valid chains of open masters (built by depth-first extension under the reference path matcher, depth <= 5 quick / 7 thorough, each chain master known- or unknown-size). For every chain and EVERY element of the specification: writer side — a fresh real TagWriter is driven through the chain's Starts (must all be accepted) and the element is written (masters as Start, also with the unknown-size option): Ok <=> reference match of the declared path against the chain, rejection must be UnexpectedTag carrying the element id; reader side — the same (chain, element) pair is rendered by the reference encoder (after a preceding complete root element so that the position is fixed) and read by the real strict iterator: the element must be emitted iff the reference accepts it against the chain that remains after closing the unknown-size masters it ends, otherwise HierarchyError carrying its id. distinct = (path-shape class of the element: ids-only / trailing global / intermediate global, bound class, chain depth, verdict, side); non-trivial iff the chain is non-empty.",
     assumptions: &["reference path semantics = spec.rs::ref_path_match / ref_closes (pattern match with backtracking; globals never close)", "reader-side pairs where the element both closes an unknown-size master and would be a valid child of the full chain are ambiguous and skipped (counted)", "unknown size is only put on non-global chain masters on the reader side"],
-    cases_quick: 600,
-    cases_thorough: 20_000,
+    cases_quick: 15_000,
+    cases_thorough: 200_000,
     floors: &[("writer_pairs", 20_000), ("reader_pairs", 20_000), ("distinct_nontrivial", 40), ("writer_accept", 1000), ("writer_reject", 1000), ("reader_accept", 1000), ("reader_reject", 1000), ("shape_intermediate-global_accept", 20), ("shape_intermediate-global_reject", 20), ("shape_trailing-global_accept", 20), ("shape_trailing-global_reject", 20)],
     exhaustive_note: Some("for each sampled chain, every element of the specification is tried (writer and reader side)"),
     run,
